@@ -301,7 +301,6 @@ Definition check_case (c : case) : verdict :=
         if s0 && s12 && s3 && s4 && s5 then 0
         else if s0 && s12 && s4 && s5 && after_close true false (acs0 known) steps' then 3
         else if s12 && s3 && s4 && s5 && only_overlap_panics [] steps' then 4
-        else if s0 && s12 && s3 && s4 && no_lost true nls0 steps' then 5
         else if s0 && s12 && s5 && after_close false true (acs0 known) steps'
                 && (s4 || only_late_parked (known_at_close (acs0 known) steps') (parked_topics (acs0 known) steps') still) then 6
         else 0 in
